@@ -213,6 +213,9 @@ pub fn run(ctx: &mut Ctx) {
     ctx.floor("overlong.no_value", 2_000);
     ctx.floor("list.cut.ok", 1_000);
     ctx.floor("wire-max.cases", 50);
+    ctx.floor("max-count.cases", 8);
+    ctx.floor("soup.headers", 3_000_000);
+    ctx.floor("long-lists.ok", 18);
 
     // ------------------------------------------------ all 65536 types x 3 dispatchers
     ctx.sweep("all-types", 256, |ctx, idx| {
@@ -276,6 +279,27 @@ pub fn run(ctx: &mut Ctx) {
         }
     });
 
+
+    // ------------------------------------------------ extension contents with the maximum NUMBER of (minimal) elements
+    ctx.sweep("max-element-counts", 8, |ctx, idx| {
+        let a = match idx {
+            0 => AExt::Sni(vec![(0, vec![]); 21844]),
+            1 => AExt::Sni((0..10_000).map(|i| ((i % 256) as u8, vec![b'a' + (i % 26) as u8])).collect()),
+            2 => AExt::Alpn(vec![vec![]; 65533]),
+            3 => AExt::Alpn((0..30_000).map(|i| vec![i as u8]).collect()),
+            4 => AExt::OidFilters(vec![(vec![], vec![]); 21844]),
+            5 => AExt::OidFilters((0..9_000).map(|i| (vec![i as u8], vec![(i >> 8) as u8, 1])).collect()),
+            6 => AExt::SupportedVersionsClient((0..127).map(|i| 0x0300 + i as u16).collect()),
+            _ => AExt::SignatureAlgorithms((0..32766).map(|i| i as u16).collect()),
+        };
+        if a.to_bytes().len() <= 65535 + 4 {
+            for (dn, d) in DISPATCHERS {
+                judge_single(ctx, dn, d, &a, &[]);
+            }
+            ctx.count("max-count.cases");
+        }
+    });
+
     // ------------------------------------------------ lists through the three list parsers
     let n = ctx.tier.pick(16000, 160000);
     ctx.family("lists", n, |ctx, case: &mut Case| {
@@ -326,6 +350,85 @@ pub fn run(ctx: &mut Ctx) {
         }
         if ctx.wants_sample() {
             ctx.sample(json!({"list": l.iter().map(|a| a.variant_name()).collect::<Vec<_>>(), "input_hex": hex_short(&input)}));
+        }
+    });
+
+
+    // ------------------------------------------------ extension header soup: random (type, length) pairs with comparison-prone
+    // bytes; unknown / GREASE types must come back verbatim, any accepted extension ends at its declared length
+    let soup = ctx.tier.pick(64, 512);
+    ctx.family("header-soup", soup, |ctx, case: &mut Case| {
+        let r = &mut case.rng;
+        let mut buf = vec![0u8; 4 + 65535 + 8];
+        r.fill(&mut buf[..]);
+        let per = 50_000u64;
+        for k in 0..per {
+            for b in buf[..10].iter_mut() {
+                *b = gen::interesting_byte(r);
+            }
+            if k % 4 != 0 {
+                buf[2] = 0;
+            }
+            let t = u16::from_be_bytes([buf[0], buf[1]]);
+            let l = u16::from_be_bytes([buf[2], buf[3]]) as usize;
+            let input = &buf[..4 + l + (k as usize % 2)];
+            for (dn, d) in DISPATCHERS {
+                let res = d(input);
+                let out = classify(&res);
+                if let Ok((_, e)) = &res {
+                    let mut bad = None;
+                    if !out.rem_is_suffix(input, 4 + l) {
+                        bad = Some("remainder-not-at-declared-length");
+                    } else if !KNOWN_EXT_TYPES.contains(&t) {
+                        let want = if is_grease(t) { AExt::Grease(t, input[4..4 + l].to_vec()) } else { AExt::Unknown(t, input[4..4 + l].to_vec()) };
+                        if *e != want.expected() || TlsExtensionType::from(e).0 != want.expected_tag() {
+                            bad = Some("unregistered-type-not-preserved");
+                        }
+                    } else if TlsExtensionType::from(e).0 != t {
+                        bad = Some("derived-tag-differs-from-wire-type");
+                    }
+                    if let Some(b) = bad {
+                        ctx.violation(format!("c05:{}:header-soup:{}", dn, b), json!({"dispatcher": dn, "rule": b, "type": t, "declared_len": l, "observed": format!("{:.120?}", e), "input_hex": hex_short(&input[..input.len().min(40)])}));
+                    }
+                } else if !KNOWN_EXT_TYPES.contains(&t) {
+                    ctx.violation(format!("c05:{}:header-soup:unregistered-type-rejected", dn), json!({"dispatcher": dn, "type": t, "declared_len": l, "outcome": out.show()}));
+                }
+            }
+        }
+        ctx.evals(per * 3);
+        ctx.add("soup.headers", per);
+        ctx.shape(&("soup", case.idx % 32));
+    });
+
+    // ------------------------------------------------ very long lists (no enclosing length: more than 64 KiB of extensions)
+    ctx.sweep("long-lists", 6, |ctx, idx| {
+        let mut rng = Rng::new(idx ^ 0x10_0000);
+        let n = [16384usize, 16385, 20000, 40000, 3, 1][idx as usize];
+        let mut l: Vec<AExt> = Vec::with_capacity(n);
+        for i in 0..n {
+            l.push(match i % 4 {
+                0 => AExt::Padding(vec![]),
+                1 => AExt::ExtendedMasterSecret,
+                2 => AExt::MaxFragmentLength((i % 251) as u8),
+                _ => AExt::Unknown(0x4000 + (i % 1000) as u16, vec![i as u8]),
+            });
+        }
+        if idx >= 4 {
+            // few, but huge
+            l = (0..n).map(|_| AExt::Cookie(rng.bytes(65535))).collect();
+        }
+        let input = refenc::exts_bytes(&l);
+        let exp: Vec<TlsExtension> = l.iter().map(|a| a.expected()).collect();
+        for (dn, p) in LIST_PARSERS {
+            let res = p(&input);
+            ctx.eval();
+            ctx.shape(&("long-list", dn, idx));
+            let good = matches!(&res, Ok((rem, v)) if rem.is_empty() && v.len() == exp.len() && (dn != "generic" || *v == exp));
+            if good {
+                ctx.count("long-lists.ok");
+            } else {
+                ctx.violation(format!("c05:list:{}:long-list", dn), json!({"parser": dn, "elements": n, "input_len": input.len(), "outcome": classify(&res).show(), "got": res.as_ref().map(|x| x.1.len()).unwrap_or(0)}));
+            }
         }
     });
 
